@@ -18,6 +18,7 @@ import (
 	"fmt"
 	"math/big"
 	"os"
+	"regexp"
 	"strings"
 
 	"github.com/oasisprotocol/oasis-core/go/common/crypto/signature"
@@ -59,6 +60,14 @@ func errClass(err error) string {
 		return "CInsufficient"
 	}
 	return "other:" + err.Error()
+}
+
+// hexify rewrites every long decimal literal of a Coq term in hexadecimal
+// (Coq parses hexadecimal numerals several times faster).
+var longDec = regexp.MustCompile(`[0-9]{10,}`)
+
+func hexify(term string) string {
+	return longDec.ReplaceAllStringFunc(term, func(d string) string { return "0x" + bi(d).Text(16) })
 }
 
 func mul(a, b *big.Int) *big.Int { return new(big.Int).Mul(a, b) }
@@ -551,7 +560,15 @@ func runSeq(c SeqCase) (res seqResult) {
 			}
 		}
 	}
-	res.coq = fmt.Sprintf("(((%s, %s, %s), %s), %s)", c.B, c.S, coqout.List(holdTerms), coqout.List(opTerms), coqout.List(obsTerms))
+	holdTerm := coqout.List(holdTerms)
+	if len(holdTerms) == 0 {
+		holdTerm = "(@nil (N * N))"
+	}
+	opTerm, obsTerm := coqout.List(opTerms), coqout.List(obsTerms)
+	if len(opTerms) == 0 {
+		opTerm, obsTerm = "(@nil mop)", "(@nil out)"
+	}
+	res.coq = fmt.Sprintf("(((%s, %s, %s), %s), %s)", c.B, c.S, holdTerm, opTerm, obsTerm)
 	return res
 }
 
@@ -837,7 +854,7 @@ func main() {
 	n := flag.Int("cases", 1500, "number of generated (random) cases")
 	grid := flag.Int("grid", 12, "api mode: exhaustive grid bound for balance, shares, amount")
 	sgrid := flag.Int("slashgrid", 6, "api mode: exhaustive grid bound for the slash cases")
-	mode := flag.String("mode", "api", "api | seq")
+	mode := flag.String("mode", "api", "api | seq | debond")
 	out := flag.String("out", "", "output directory")
 	replay := flag.String("replay", "", "replay a case description (JSON file)")
 	flag.Parse()
@@ -864,7 +881,14 @@ func main() {
 		if err := json.Unmarshal(raw, &probe); err != nil {
 			panic(err)
 		}
-		if _, ok := probe["ops"]; ok {
+		if _, ok := probe["dops"]; ok {
+			var c DCase
+			if err := json.Unmarshal(raw, &c); err != nil {
+				panic(err)
+			}
+			debondMode(*seed, 0, *out, []DCase{c})
+			return
+		} else if _, ok := probe["ops"]; ok {
 			var c SeqCase
 			if err := json.Unmarshal(raw, &c); err != nil {
 				panic(err)
@@ -916,7 +940,7 @@ func main() {
 				sum.Sample(c, 3)
 			}
 			if res.coq != "" {
-				wb.Add(res.coq, map[string]any{"case": c})
+				wb.Add(hexify(res.coq), map[string]any{"case": c})
 			}
 			if res.violated != "" {
 				sum.Violations = append(sum.Violations, map[string]any{"what": res.violated, "case": c})
@@ -925,7 +949,7 @@ func main() {
 		wb.Close()
 		sum.Write(*out)
 	case "seq":
-		wb := coqout.NewWriter(*out, hdr, "run_seq", "seq_eqb", 400)
+		wb := coqout.NewWriter(*out, hdr, "run_seq", "seq_eqb", 60)
 		sum := coqout.NewSummary("seeded multi-delegator sequences (2..30 operations; deposit / redeem by 1..4 delegators, reward, slash through SlashEscrow) on one real SharePool starting from empty, small odd-ratio, 2^64..2^256-scale and orphan pools with a passive holder; 55% of the sequences have no reward/slash, 25% a single acting delegator; non-trivial = some successful deposit or redemption actually rounded; distinct = distinct case descriptions")
 		if *replay == "" {
 			// the refutation witness of the naive per-delegator statement, replayed on the real code
@@ -950,7 +974,7 @@ func main() {
 			sum.Count("seq_len", fmt.Sprint((len(c.Ops)+9)/10*10))
 			sum.Sample(c, 2)
 			if res.coq != "" {
-				wb.Add(res.coq, map[string]any{"case": c})
+				wb.Add(hexify(res.coq), map[string]any{"case": c})
 			}
 			if res.violated != "" {
 				c2 := shrinkSeq(c, res)
@@ -960,6 +984,8 @@ func main() {
 		}
 		wb.Close()
 		sum.Write(*out)
+	case "debond":
+		debondMode(*seed, *n, *out, nil)
 	default:
 		fmt.Fprintln(os.Stderr, "unknown mode")
 		os.Exit(2)
